@@ -146,12 +146,14 @@ CHECKS["C18"] = {
     "rule": ("test binary built with -race (GORACE=halt_on_error=1). (a) rapid-generated virtual-time scenarios with keepalive on and all periods (ping, pong, resend, latency, pacing, fault delays) multiples of one "
              "base period so that timer expiries and packet arrivals coincide at identical virtual instants, plus up to 12 extra application goroutines calling Send, Recv, SetSendTimeout, SetRecvTimeout and Close at those instants; "
              "(b) rapid-generated real-time stress of IntervalAwareForceTicker with exactly the call mix of the send loop (on tick: pong.Reset, pong.Resume, ping.Reset) and of the receive loop (ping.Reset, pong.IsActive/Pause), "
-             "readers of NextTickIn/LastTimedTick, and three goroutines driving TimeoutManager Sent/Received/Get*/Set*. Oracle: no race report, no panic (close of closed channel, send on closed channel), no deadlock (watchdog). "
+             "readers of NextTickIn/LastTimedTick, and three goroutines driving TimeoutManager Sent/Received/Get*/Set*; (c) start-up failures: the transport of one endpoint fails on the first data-phase call (or one call earlier / later) "
+             "so that a goroutine of the connection exits and closes it while start() is still launching the others, with the application calling Close / Send / Recv at that moment, 50 connections per case. Oracle: no race report, no panic (close of closed channel, send on closed channel), no deadlock (watchdog). "
              "Non-trivial: a ping transmission coincided with a packet arrival or extra API goroutines ran; every stress case; distinct by case."),
     "assumptions": ["the race detector only sees interleavings that actually ran: this is sampling, the weakest claim of the set"],
     "units": [
         {"pkg": "gbnprop", "run": "TestC18RaceScenarios", "race": True, "checks": (700, 8000), "shards": (1, 8), "timeout": (900, 5400), "gomaxprocs": [16, 8, 4, 2]},
         {"pkg": "gbnprop", "run": "TestC18Stress", "race": True, "checks": (150, 1500), "shards": (1, 4), "timeout": (900, 5400)},
+        {"pkg": "gbnprop", "run": "TestC18StartFailure", "race": True, "checks": (150, 3000), "shards": (2, 8), "timeout": (900, 5400)},
     ],
 }
 
